@@ -324,6 +324,24 @@ func families() [][]poolEntry {
 			ev("opname", `query A { tag } mutation B { bump(by: 3) }`, true, []string{"A", "B"}),
 			ev("opname", `query B { tag } mutation A { bump(by: 3) }`, true, []string{"A", "B"}),
 		},
+		{ // a SECOND spread of a fragment that is already spread elsewhere: present / absent / with a directive, in another
+			// selection set, in the same one, and under inline fragments (a key function that emits a fragment once per
+			// document must still see every spread of it)
+			e("respread", `{ item(id: 1) { ...F } items(n: 2) { kind ...F } } fragment F on Item { id }`, true),
+			e("respread", `{ item(id: 1) { ...F } items(n: 2) { kind } } fragment F on Item { id }`, true),
+			e("respread", `{ item(id: 1) { ...F } items(n: 2) { kind ...F @skip(if: true) } } fragment F on Item { id }`, true),
+			e("respread", `{ item(id: 1) { ...F } items(n: 2) { kind ...F @include(if: true) } } fragment F on Item { id }`, true),
+			e("respread", `{ item(id: 1) { kind ...F next { ...F } } } fragment F on Item { id }`, true),
+			e("respread", `{ item(id: 1) { kind ...F next { kind } } } fragment F on Item { id }`, true),
+			e("respread", `{ item(id: 1) { ...F kind ...F @skip(if: true) } } fragment F on Item { id }`, true),
+			e("respread", `{ item(id: 1) { ...F kind } } fragment F on Item { id }`, true),
+			e("respread", `{ item(id: 1) { kind ...F @skip(if: true) ...F } } fragment F on Item { id }`, true),
+			e("respread", `{ node(id: 2) { ... on Item { ...F } ... on Item { kind ...F } } } fragment F on Item { id }`, true),
+			e("respread", `{ node(id: 2) { ... on Item { ...F } ... on Item { kind } } } fragment F on Item { id }`, true),
+			e("respread", `{ node(id: 2) { ... on Item { ...F } ... on Item { kind ...F @skip(if: true) } } } fragment F on Item { id }`, true),
+			e("respread", `{ item(id: 1) { ...F } items(n: 2) { ...G } } fragment F on Item { id } fragment G on Item { kind ...F }`, true),
+			e("respread", `{ item(id: 1) { ...F } items(n: 2) { ...G } } fragment F on Item { id } fragment G on Item { kind }`, true),
+		},
 		{ // definitions the selected operation does not reach (validation looks at the whole document): pairs that differ
 			// only there must not share an entry (D-06l)
 			ev("otherdefs", `query A { tag } query B { tag }`, true, []string{"A", "B"}),
